@@ -222,8 +222,9 @@ fn main() {
                         for i in &items {
                             ranges.push((M1.0, i.source_range.start().into(), i.source_range.end().into()));
                         }
-                        // built-in constructors are always in scope
-                        got.retain(|l| !["Ok", "Error", "True", "False", "Nil"].contains(&l.as_str()));
+                        // built-in constructors are always in scope (and not the specification's business - unless the module
+                        // declares a constructor with such a name itself: then the name is expected, once)
+                        got.retain(|l| !["Ok", "Error", "True", "False", "Nil"].contains(&l.as_str()) || t.vis.contains(l));
                         got.sort();
                         let dup = got.windows(2).any(|w| w[0] == w[1]);
                         got.dedup();
@@ -262,7 +263,7 @@ fn main() {
                         let items = a2.completions(FilePos::new(M1, (end2 as u32).into()), None).unwrap().unwrap_or_default();
                         queries += 1;
                         let mut got: Vec<String> = items.iter().filter(|i| matches!(i.kind, ide::CompletionItemKind::Function | ide::CompletionItemKind::Param | ide::CompletionItemKind::Variant)).map(|i| i.label.to_string()).collect();
-                        got.retain(|l| !["Ok", "Error", "True", "False", "Nil"].contains(&l.as_str()));
+                        got.retain(|l| !["Ok", "Error", "True", "False", "Nil"].contains(&l.as_str()) || t.vis.contains(l));
                         got.sort();
                         got.dedup();
                         let mut exp: Vec<String> = t.vis.clone();
